@@ -1754,17 +1754,23 @@ func (c *Ctx) ruleFreeFirst(rule string) {
 	}
 	// tables with a check-then-insert
 	gate := map[string]string{}
+	gatePos := map[string]string{}
+	removed := map[string]int{}
 	for _, fn := range c.M.SortedFuncs(c.scopePkg("atp")) {
 		if !c.methodOrClosureOf(fn, ro.serverT) {
 			continue
 		}
 		looked, inserted := map[string]bool{}, map[string]bool{}
+		lookPos := map[string]string{}
 		for _, b := range fn.Blocks {
 			for _, in := range b.Instrs {
 				switch x := in.(type) {
 				case *ssa.Lookup:
 					if x.CommaOk {
 						looked[tableOf(x.X)] = true
+						if lookPos[tableOf(x.X)] == "" {
+							lookPos[tableOf(x.X)] = c.M.InstrPos(x)
+						}
 					}
 				case *ssa.MapUpdate:
 					inserted[tableOf(x.Map)] = true
@@ -1774,6 +1780,7 @@ func (c *Ctx) ruleFreeFirst(rule string) {
 		for t := range looked {
 			if t != "" && inserted[t] {
 				gate[t] = c.M.Key(fn)
+				gatePos[t] = lookPos[t]
 			}
 		}
 	}
@@ -1829,6 +1836,7 @@ func (c *Ctx) ruleFreeFirst(rule string) {
 				}
 				idx++
 				n++
+				removed[t]++
 				k := key(rule, c.M.Key(fn), sprintf("delete #%d on %s does not come after the run's terminal message", idx, t))
 				late := ""
 				// earlier in the same function
@@ -1888,6 +1896,18 @@ func (c *Ctx) ruleFreeFirst(rule string) {
 		names = append(names, t)
 	}
 	sort.Strings(names)
+	// round 17 (C05-CA): a table that decides whether a work start is taken and is never pruned refuses an ID for
+	// good - the client forgets a run once its result is collected, and a later Execute under the same ID is legal.
+	for _, t := range names {
+		kk := key(rule, gate[t], "entries of "+t+" are removed when their run is over")
+		if removed[t] == 0 {
+			c.R.Bad(rule, kk, gatePos[t], "a run ID that was used once is refused for the rest of the session",
+				"the table "+t+" decides whether a work start is taken ("+gate[t]+" looks the ID up and inserts it), and no method of the session ever deletes from it: "+
+					"an entry outlives its run, so a later work start under the ID of a finished run is refused although in-process the step would run")
+		} else {
+			c.R.Ok(rule, kk, gatePos[t], "entries of a deciding table are removed", sprintf("%d delete(s) on %s", removed[t], t))
+		}
+	}
 	if len(names) == 0 {
 		c.R.Ok(rule, k, "-", "check-then-insert on a table of the session", "no method of the session both looks a key up in a map field and inserts into it: no table decides whether a work start is taken, and the removal of entries has no bearing on it")
 	} else {
